@@ -285,7 +285,7 @@ class Headers(Mapping):
 
     def __getitem__(self, name: str):
         """Return header item identified by lower name."""
-        name = Headers.iso88591(name.lower())
+        name = Headers.iso88591(name).lower()
         for k, val in self.__headers:
             if k.lower() == name:
                 return val
@@ -293,7 +293,7 @@ class Headers(Mapping):
 
     def __delitem__(self, name: str):
         """Delete item identied by lower name."""
-        name = Headers.iso88591(name.lower())
+        name = Headers.iso88591(name).lower()
         self.__headers = list(kv for kv in self.__headers
                               if kv[0].lower() != name)
 
@@ -329,7 +329,7 @@ class Headers(Mapping):
         >>> headers.get_all('X-Test')
         ()
         """
-        name = Headers.iso88591(name.lower())
+        name = Headers.iso88591(name).lower()
         return tuple(kv[1] for kv in self.__headers if kv[0].lower() == name)
 
     def items(self):
@@ -349,7 +349,7 @@ class Headers(Mapping):
 
         Duplicate names are not allowed instead of ``Set-Cookie``.
         """
-        if name.lower() != "set-cookie" and name in self:
+        if name in self and name.lower() != "set-cookie":
             raise KeyError("Key %s exist." % name)
         self.add_header(name, value)
 
